@@ -672,10 +672,66 @@ func genC05SmallOlder(r *rng, tier string, add func(g *G)) {
 	}
 }
 
+// directed: the index GROWS (bucket splits move keys to new buckets) inside the per-record windows of
+// a stepped compaction: between two records the writer puts enough new keys to cross a split
+// threshold. Whatever the compaction looked at before the window (the bucket of the next record,
+// a cached bucket, the number of buckets) is stale afterwards; a live record judged by stale data is
+// dropped with its segment. Used by C05 (compaction with interleaved writers) and C07 (every
+// interleaving of atomic steps is a sequential history).
+func genSplitInsideCompaction(r *rng, tier string, prop string, add func(g *G)) {
+	n := scale(tier, 6, 40)
+	for i := 0; i < n; i++ {
+		g := newG(r.fork(), fmt.Sprintf("%s/split-inside-compaction/%d", prop, i))
+		g.dumpEvery = 0
+		g.params([]int{900, 1400, 2048}[g.r.intn(3)], 512, 0.0001, false)
+		g.open()
+		// 15-60 keys: level 0-1, split pointer anywhere; every key overwritten now and then so that every
+		// sealed segment is eligible and holds live records
+		g.keys = g.randomKeys(15 + g.r.intn(46))
+		for _, k := range g.keys {
+			g.put(k, g.r.bytes(10+g.r.intn(30)))
+		}
+		for j := 0; j < 4+g.r.intn(8); j++ {
+			g.put(g.pick(), g.r.bytes(10+g.r.intn(30)))
+		}
+		g.indexShape()
+		g.dump()
+		g.do("cpick", "cpick ok")
+		fresh := 0
+		for steps := 0; steps < 3000; steps++ {
+			// 0-8 NEW keys per window: a split every ~22 new keys, at varying distances from the record
+			for j := g.r.intn(9); j > 0 && fresh < 400; j-- {
+				k := []byte(fmt.Sprintf("new-%d-%d", i, fresh))
+				fresh++
+				g.keys = append(g.keys, k)
+				g.put(k, g.r.bytes(5+g.r.intn(20)))
+				g.c.tag("new_keys_inside_compaction")
+			}
+			out := g.do("cstep")
+			if !strings.HasPrefix(resultLine(out), "cstep more") {
+				if !strings.HasPrefix(resultLine(out), "cstep done") {
+					g.c.Steps[len(g.c.Steps)-1].Expect = []string{"cstep done ..."}
+				}
+				break
+			}
+		}
+		g.indexShape()
+		g.checkAll()
+		g.dump()
+		g.do("kill")
+		g.isOpen = false
+		g.open()
+		g.checkAll()
+		g.dump()
+		add(g)
+	}
+}
+
 func genC05(r *rng, tier string, add func(g *G)) {
 	genC05Directed(r, tier, add)
 	genC05SmallOlder(r, tier, add)
 	genC04Directed(r, tier, add) // compaction after a recovery (rebuilt counters), then a crash
+	genSplitInsideCompaction(r, tier, "C05", add)
 	n := scale(tier, 60, 1500)
 	for i := 0; i < n; i++ {
 		g := newG(r.fork(), fmt.Sprintf("C05/%d", i))
